@@ -105,9 +105,12 @@ def run_case(case):
                 viols.append(oracles.V(
                     "rerun_with_stop",
                     f"StopIteration at call {k}: " + "; ".join(bad), k=k,
-                    mechanism=("fun_none" if spec["obj"]["kind"] == "none"
-                               else "fun") + ":" + ",".join(
-                                   b.split("=")[0] for b in bad)))
+                    mechanism="degenerate_early_exit" if (
+                        rr.run.tr is None and res.status in (2, -1)
+                        and bad == [f"status={res.status}"]) else
+                    ("fun_none" if spec["obj"]["kind"] == "none"
+                     else "fun") + ":" + ",".join(
+                         b.split("=")[0] for b in bad)))
             if k in interesting:
                 nt.append("|".join([cb["conv"], cb["form"],
                                     spec.get("con_kind", "?"),
